@@ -1,5 +1,8 @@
-(* C18: cancel_isolated is refuted on the faithful model (three witnesses). *)
-From Gv Require Import C18.Model C18.Spec C18.ProofsBasic.
+(* C18: cancel_isolated at full strength on the repaired code: on EVERY accepted action list, every
+   failure a subscriber observes (error return of Subscribe, connection-error callback) is its own
+   context error or an upstream fault -- never another subscriber's cancel, another subscriber
+   leaving, or another subscriber's ctx ending a dial or a frame write. *)
+From Gv Require Import C18.Model C18.Spec C18.ProofsBasic C18.ProofsInv C18.ProofsKey C18.ProofsDrain C18.ProofsRouting.
 From Coq Require Import List NArith Arith Bool Lia.
 Import ListNotations.
 
@@ -18,74 +21,271 @@ Proof.
   rewrite ev_isolated_b_sound; auto.
 Qed.
 
+Definition up_err (e : err) : Prop := match e with EDial | EInit _ => True | _ => False end.
+(* the outcome of i's own dial: an upstream fault, or i's own ctx (and then that ctx is done) *)
+Definition own_or_up (s : st) (i : nat) (e : err) : Prop :=
+  up_err e \/ ((exists b, e = ECtx i b) /\ ctxc s i = true).
+Definition okcause (s : st) (c : nat) (x : conn) (z : cause) : Prop :=
+  z = CUpstream \/ z = CPing \/ (z = CIdle /\ c_closed x = true /\ forall j w, pc s j <> SSend c w).
+
+Record InvS (s : st) : Prop := {
+  (* a published dial error that is not marked aborted is an upstream fault *)
+  S1 : forall d y e, dials s d = Some y -> d_done y = Some (Some e) -> d_abort y = false -> up_err e;
+  S1b : forall i d e, pc s i = SBook d (Some e) \/ pc s i = SPublish d (Some e) -> own_or_up s i e;
+  (* a socket is dead because of the upstream / the ping loop, or it was closed EMPTY and nobody
+     is left who could write on it *)
+  S2 : forall c x z, cns s c = Some x -> c_dead x = Some z -> okcause s c x z;
+  S3 : forall i c w e, pc s i = SRemove c w (KSendFail e) \/ pc s i = SClose c (KSendFail e) -> err_blame_ok i e
+}.
+
+Lemma invs_init : forall idl, InvS (init idl).
+Proof. intros; constructor; simpl; intros; try discriminate; destruct H; discriminate. Qed.
+
+Lemma up_err_blame : forall j e, up_err e -> err_blame_ok j e.
+Proof. destruct e; simpl; tauto. Qed.
+Lemma own_or_up_blame : forall s j e, own_or_up s j e -> err_blame_ok j e.
+Proof. intros s j e [H|[[b ->] _]]; [apply up_err_blame; auto | reflexivity]. Qed.
+
+Lemma okcause_blame : forall s c x z j, okcause s c x z -> (z = CIdle -> False) -> blame_ok j z.
+Proof. intros s c x z j [->|[->|(-> & _)]] H; simpl; auto. Qed.
+
+Lemma connerrs_isolated : forall (l : list (nat * nat)) cz, (forall j, blame_ok j cz) ->
+  Forall ev_isolated (map (fun p => OConnErr (snd p) cz) l).
+Proof. induction l; simpl; intros; constructor; simpl; auto. Qed.
+
+Lemma kill_evs_isolated : forall c x, Forall ev_isolated (kill_evs c x).
+Proof. intros. unfold kill_evs. destruct (c_dead x); repeat constructor. Qed.
+
+Lemma shut_evs_isolated : forall s c cz s' evs, shut s c cz = (s', evs) ->
+  (cz = CUpstream \/ cz = CPing \/ (forall x, cns s c = Some x -> c_closed x = true \/ c_subs x = [])) ->
+  Forall ev_isolated evs.
+Proof.
+  intros s c cz s' evs H Hc. destruct (shut_cases _ _ _ _ _ H) as [(-> & -> & _)|(x & Ex & Ecl & -> & ->)]; [constructor|].
+  apply Forall_app. split; [|apply kill_evs_isolated].
+  destruct Hc as [->|[->|Hy]].
+  - apply connerrs_isolated. intros; exact I.
+  - apply connerrs_isolated. intros; exact I.
+  - destruct (Hy _ Ex) as [Hy'|Hy']; [congruence|]. rewrite Hy'. constructor.
+Qed.
+
+Lemma close_if_empty_evs_isolated : forall s c s' evs, close_if_empty s c = (s', evs) -> Forall ev_isolated evs.
+Proof.
+  intros. destruct (close_if_empty_cases _ _ _ _ H) as [(_ & -> & _)|(x & _ & _ & _ & _ & -> & _)];
+    [constructor | apply kill_evs_isolated].
+Qed.
+
+Lemma ret_evs_isolated : forall i k, (forall e, k = KSendFail e -> err_blame_ok i e) -> Forall ev_isolated (ret_evs i k).
+Proof. intros i k H. destruct k; simpl; repeat constructor. simpl. auto. Qed.
+
+(* every event of every step is isolated *)
+Lemma evs_isolated_step : forall s a s' evs, Inv s -> InvS s -> step s a = Some (s', evs) -> Forall ev_isolated evs.
+Proof.
+  intros s a s' evs HI HS H.
+  destruct a; inv_step H; repeat constructor; simpl; auto.
+  all: try (eapply close_if_empty_evs_isolated; eauto; fail).
+  - (* AWaitDone: a result that is not marked aborted *)
+    apply up_err_blame. eapply (S1 _ HS); eauto.
+  - (* APublish: the dialler's own outcome *)
+    eapply own_or_up_blame. eapply (S1b _ HS). right. eauto.
+  - (* AInsert: id exists -- impossible, ids are fresh *)
+    apply lookup_In in Heqo0. pose proof (I1 _ HI _ _ _ _ Heqo Heqo0) as Hh. apply holds_held in Hh.
+    pose proof (I5 _ HI _ _ Hh). lia.
+  - (* ARemove *) apply ret_evs_isolated. intros e0 ->. apply (S3 _ HS i c w e0). auto.
+  - (* AClose *)
+    apply Forall_app. split.
+    + eapply close_if_empty_evs_isolated; eauto.
+    + apply ret_evs_isolated. intros e0 ->. apply (S3 _ HS i c 0 e0). auto.
+  - (* ARLReadErr *)
+    eapply shut_evs_isolated; eauto.
+    destruct (S2 _ HS _ _ _ Heqo Heqo0) as [->|[->|(-> & Hcl & _)]]; auto.
+    right; right. intros x Ex. rewrite Heqo in Ex; inversion Ex; subst. auto.
+  - (* APingTimeout *) eapply shut_evs_isolated; eauto.
+Qed.
+
+Ltac ds HS :=
+  pose proof (S1 _ HS) as Hs1; pose proof (S1b _ HS) as Hs1b; pose proof (S2 _ HS) as Hs2; pose proof (S3 _ HS) as Hs3.
+
+(* the cause of death survives a step that keeps the closed flag and creates no SSend on c *)
+Lemma okcause_keep : forall s s' c x x' z, okcause s c x z ->
+  (c_closed x = true -> c_closed x' = true) ->
+  (z = CIdle -> c_closed x = true -> forall j w, pc s' j = SSend c w -> exists j' w', pc s j' = SSend c w') ->
+  okcause s' c x' z.
+Proof.
+  intros s s' c x x' z [->|[->|(-> & Hcl & Hj)]] H1 H2; unfold okcause; auto.
+  right; right. repeat split; auto. intros j w Hp. destruct (H2 eq_refl Hcl _ _ Hp) as (j' & w' & Hp'). eapply Hj; eauto.
+Qed.
+
+Lemma own_or_up_mono : forall s s' i e, own_or_up s i e -> (ctxc s i = true -> ctxc s' i = true) -> own_or_up s' i e.
+Proof. intros s s' i e [H|[H1 H2]] Hc; [left; auto | right; auto]. Qed.
+
+Ltac inv_pcs :=
+  repeat match goal with
+         | H : SBook _ _ = _ |- _ => inversion H; subst; clear H
+         | H : SPublish _ _ = _ |- _ => inversion H; subst; clear H
+         | H : SRemove _ _ _ = _ |- _ => inversion H; subst; clear H
+         | H : SClose _ _ = _ |- _ => inversion H; subst; clear H
+         | H : SSend _ _ = _ |- _ => inversion H; subst; clear H
+         | H : after _ = _ |- _ => unfold after in H
+         | H : match ?k with KCancel => _ | KSendFail _ => _ end = _ |- _ => destruct k; try discriminate
+         end.
+
+(* a subscriber whose subscribe frame is pending is in the table of its (live) connection *)
+Definition SendIn (s : st) : Prop :=
+  forall i c w x, pc s i = SSend c w -> cns s c = Some x -> c_dead x = None -> In (w, i) (c_subs x).
+
+Ltac okc Hs2 :=
+  match goal with
+  | |- okcause _ _ _ CUpstream => left; reflexivity
+  | |- okcause _ _ _ CPing => right; left; reflexivity
+  | |- okcause _ ?c _ ?z =>
+    eapply okcause_keep; [eapply Hs2; eassumption | simpl; auto |
+      intros _ Hclo j0 w0 Hp0; simpl in Hp0; unfold upd in Hp0;
+      try (match type of Hp0 with context [Nat.eqb j0 ?i] => destruct (Nat.eqb_spec j0 i); subst end);
+      try (match type of Hp0 with context [after ?k] => destruct k; simpl in Hp0 end);
+      try discriminate; try congruence; eauto]
+  end.
+
+Lemma okcause_open : forall s s' c x x' z, okcause s c x z -> c_closed x = false -> okcause s' c x' z.
+Proof. intros s s' c x x' z [->|[->|(-> & Hcl & _)]] H; unfold okcause; auto. congruence. Qed.
+
+Lemma invs_step : forall s a s' e, Inv s -> InvD s -> NoConnYet s -> SendIn s -> InvS s ->
+  step s a = Some (s', e) -> InvS s'.
+Proof.
+  intros s a s' e HI HD HN H6 HS H. ds HS.
+  destruct a; inv_step H; expl.
+  all: constructor; intros; simp; eqb_cases; inj_all; fwd_same;
+       repeat (match goal with Er : removed_conn _ _ _ = _ |- _ => rewrite Er in *; clear Er end); simpl in *;
+       eauto; try congruence; try (split_or; congruence).
+  all: try (match goal with |- own_or_up _ _ _ => eapply own_or_up_mono; [eapply Hs1b; eassumption | simpl; unfold upd; intros; try (match goal with |- context [Nat.eqb ?a ?b] => destruct (Nat.eqb_spec a b) end); auto] end; fail).
+  all: try (okc Hs2; fail).
+  all: destr_hyp_match; inj_all; fwd_same; try congruence.
+  all: try (split_or; eqb_cases; try discriminate; inj_all; inv_pcs; simpl; eauto 6; fail).
+  all: try (okc Hs2; fail).
+  all: try (match goal with
+            | Hc : cns ?s ?c = Some ?x, Hd : c_dead ?x = Some ?z, Hcl : c_closed ?x = false |- okcause _ ?c _ ?z =>
+              eapply okcause_open; [exact (Hs2 _ _ _ Hc Hd) | exact Hcl] end).
+  all: try (match goal with
+            | H : _ = _ \/ _ = _ |- own_or_up _ _ _ =>
+              destruct H as [H|H]; inversion H; subst; clear H;
+              first [ left; exact I | right; split; [eexists; reflexivity | simpl; auto] ] end).
+  all: try (match goal with
+            | Hc : cns ?s ?c = Some ?x, Hsub : c_subs ?x = [], Hd : c_dead ?x = None |- okcause _ ?c _ CIdle =>
+              right; right; split; [reflexivity|]; split; [reflexivity|];
+              intros j0 w0 Hp0; simpl in Hp0; unfold upd in Hp0;
+              try (match type of Hp0 with context [Nat.eqb j0 ?i] => destruct (Nat.eqb_spec j0 i); subst end);
+              try (match type of Hp0 with context [after ?k] => destruct k; simpl in Hp0 end);
+              try discriminate;
+              pose proof (H6 _ _ _ _ Hp0 Hc Hd) as Hin; rewrite Hsub in Hin; destruct Hin end).
+  - (* APublish: not aborted, so the dialler's ctx was live: an upstream fault *)
+    destruct (Hs1b i d e (or_intror Heqs0)) as [Hu|[_ Hc]]; [exact Hu | congruence].
+  - (* ASend on a dead socket *)
+    destruct H as [H|H]; inversion H; subst. simpl.
+    destruct (Hs2 _ _ _ Heqo Heqo0) as [->|[->|(-> & _ & Hn)]]; simpl; auto.
+    eapply Hn; eauto.
+Qed.
+
+Theorem cancel_isolated_proof : forall idl tr s log, run (init idl) tr = Some (s, log) -> isolated_log log.
+Proof.
+  intros idl tr s log H.
+  assert (G : Good s /\ NoConnYet s /\ (exists r, scan rs0 log = Some r /\ Rel s r) /\ InvS s /\ isolated_log log).
+  { revert H. apply (run_ind (fun s log => Good s /\ NoConnYet s /\ (exists r, scan rs0 log = Some r /\ Rel s r)
+                                            /\ InvS s /\ isolated_log log) (init idl)).
+    - split; [apply good_init|]. split; [apply noconn_init|].
+      split; [exists rs0; split; [reflexivity | apply rel_init]|]. split; [apply invs_init | constructor].
+    - intros s0 l0 a s1 e1 HH Hst. destruct HH as (HG & HN & (r0 & Hs & HR) & HS & HL). destruct HG as (HI & HD & HC).
+      assert (HG1 : Good s1) by (apply (good_step s0 a s1 e1); [split; [|split]; assumption | exact Hst]).
+      assert (HN1 : NoConnYet s1) by (eapply noconn_step; eauto).
+      cbv beta. split; [exact HG1|]. split; [exact HN1|].
+      destruct (rel_step _ _ _ _ _ HI HD HN HR Hst) as (r1 & E1 & HR1).
+      split; [exists r1; split; auto; rewrite scan_app, Hs; exact E1|].
+      split.
+      + eapply invs_step; eauto. exact (R6 _ _ HR).
+      + apply Forall_app. split; [exact HL | eapply evs_isolated_step; eauto]. }
+  tauto.
+Qed.
+
+(* ---- the three schedules that refuted the statement on the code as found (ProofsV0.v), on the
+   repaired code ---- *)
 Definition K1 : key := (1, 1, 0, 0)%N.
 
-(* (a) the first subscriber dials with ITS OWN ctx; it cancels while the protocol init is pending;
-   the coalesced waiter 1 (live ctx, healthy upstream) receives 0's context error *)
+(* (a) the dialler 0 cancels while the protocol init is pending: the coalesced waiter 1 (live ctx,
+   healthy upstream) dials again and subscribes *)
 Definition tr_a : list action :=
-  [ASub 0 K1; UpAccept 0; ASub 1 K1; ACtxCancel 0; ADialCtx 0; APublish 0; AWaitDone 1; ABook 0].
-(* the same upstream behaviour without subscriber 0: 1 dials itself and succeeds *)
-Definition tr_a_minus : list action :=
-  [ASub 1 K1; UpAccept 0; UpAck 0; APublish 1; ABook 1; AInsert 1; ASend 1].
+  [ASub 0 K1; UpAccept 0; ASub 1 K1; ACtxCancel 0; ADialCtx 0; ABook 0; APublish 0; AWaitDone 1; ARetry 1;
+   UpAccept 1; UpAck 1; ABook 1; APublish 1; AInsert 1; ASend 1].
+Example repaired_a :
+  exists log, obs false tr_a = Some log /\ In (ORet 0 (Some (ECtx 0 true))) log /\ In (OSrvDial 1 K1) log
+              /\ In (ORet 1 None) log /\ isolated_log_b log = true.
+Proof. eexists. split; [vm_compute; reflexivity|]. repeat split; simpl; tauto. Qed.
 
-Lemma refuted_a :
-  exists log log', obs false tr_a = Some log /\ In (ORet 1 (Some (ECtx 0 true))) log /\ ~ In (OCancel 1) log
-                   /\ ~ isolated_log log
-                   /\ obs false tr_a_minus = Some log' /\ In (ORet 1 None) log' /\ isolated_log log'.
-Proof.
-  eexists. eexists. split; [vm_compute; reflexivity|].
-  split; [simpl; tauto|]. split; [simpl; intuition discriminate|].
-  split; [intro H; apply isolated_log_b_sound in H; vm_compute in H; discriminate|].
-  split; [vm_compute; reflexivity|]. split; [simpl; tauto|].
-  repeat constructor.
-Qed.
+(* a waiter whose own ctx is done as well gets ITS OWN ctx error *)
+Definition tr_a2 : list action :=
+  [ASub 0 K1; UpAccept 0; ASub 1 K1; ACtxCancel 0; ADialCtx 0; ACtxCancel 1; ABook 0; APublish 0; AWaitDone 1].
+Example repaired_a2 :
+  exists log, obs false tr_a2 = Some log /\ In (ORet 1 (Some (ECtx 1 false))) log /\ isolated_log_b log = true.
+Proof. eexists. split; [vm_compute; reflexivity|]. split; simpl; tauto. Qed.
 
-(* (b) idle timer: "still empty?" is read under the lock, closeConn runs without it; subscriber 1
-   is inserted and has sent its subscribe in between, and is shut down with the connection *)
+(* (b) idle timer: subscriber 1 registers before the timer fires; the timer sees the table
+   non-empty under the lock and leaves the connection open *)
 Definition tr_b : list action :=
-  [ASub 0 K1; UpAccept 0; UpAck 0; APublish 0; ABook 0; AInsert 0; ASend 0;
+  [ASub 0 K1; UpAccept 0; UpAck 0; ABook 0; APublish 0; AInsert 0; ASend 0;
    ACtxCancel 0; AUnsub 0; AUnsubSend 0; ARemove 0;
-   ATimerFire 0; ASub 1 K1; AInsert 1; ASend 1; ATimerClose 0].
-(* the same window with IdleTimeout = 0: removeSub saw the table empty, closeConn comes later; here
-   subscriber 1 obtained the connection before and finds it closed *)
+   ASub 1 K1; AInsert 1; ASend 1; ATimerFire 0; UpMsg 0 1 (KData 5)].
+(* IdleTimeout = 0: subscriber 1 obtained the connection, 0 leaves and closes it (the table is
+   empty); 1 finds it closed, starts over and gets a fresh connection *)
 Definition tr_b0 : list action :=
-  [ASub 0 K1; UpAccept 0; UpAck 0; APublish 0; ABook 0; AInsert 0; ASend 0;
-   ACtxCancel 0; AUnsub 0; AUnsubSend 0; ASub 1 K1; ARemove 0; AClose 0; AInsert 1].
-
-Lemma refuted_b :
-  (exists log, obs true tr_b = Some log /\ In (OConnErr 1 CIdle) log /\ ~ In (OCancel 1) log /\ ~ isolated_log log)
-  /\ (exists log, obs false tr_b0 = Some log /\ In (ORet 1 (Some (EClosed CIdle))) log /\ ~ In (OCancel 1) log
-                  /\ ~ isolated_log log).
+  [ASub 0 K1; UpAccept 0; UpAck 0; ABook 0; APublish 0; AInsert 0; ASend 0;
+   ACtxCancel 0; AUnsub 0; AUnsubSend 0; ASub 1 K1; ARemove 0; AClose 0; AInsert 1; ARetry 1;
+   UpAccept 1; UpAck 1; ABook 1; APublish 1; AInsert 1; ASend 1; ARemoveConn 0].
+(* ... or 1 registers first: closeIfEmpty sees it and does nothing *)
+Definition tr_b0' : list action :=
+  [ASub 0 K1; UpAccept 0; UpAck 0; ABook 0; APublish 0; AInsert 0; ASend 0;
+   ACtxCancel 0; AUnsub 0; AUnsubSend 0; ASub 1 K1; ARemove 0; AInsert 1; AClose 0; ASend 1; UpMsg 0 1 (KData 6)].
+Example repaired_b :
+  (exists log, obs true tr_b = Some log /\ In (ODeliver 1 (KData 5)) log /\ ~ In (OSrvClosed 0) log
+               /\ isolated_log_b log = true)
+  /\ (exists log, obs false tr_b0 = Some log /\ In (OSrvClosed 0) log /\ In (OSrvSub 1 2 1) log /\ In (ORet 1 None) log
+                  /\ isolated_log_b log = true)
+  /\ (exists log, obs false tr_b0' = Some log /\ In (ODeliver 1 (KData 6)) log /\ ~ In (OSrvClosed 0) log
+                  /\ isolated_log_b log = true).
 Proof.
-  split; eexists; (split; [vm_compute; reflexivity|]);
-    (split; [simpl; tauto|]); (split; [simpl; intuition discriminate|]);
-    intro H; apply isolated_log_b_sound in H; vm_compute in H; discriminate.
+  split; [|split]; eexists; (split; [vm_compute; reflexivity|]); repeat split; simpl; try tauto; intuition discriminate.
 Qed.
 
-(* (d) coder/websocket closes the whole socket when the ctx of a frame write is cancelled:
-   subscriber 1 subscribes with an already cancelled ctx on the connection shared with 0 *)
+(* (d) subscriber 1 subscribes with an already cancelled ctx on the connection shared with 0: it
+   gets its own ctx error, the socket and subscriber 0 are untouched *)
 Definition tr_d : list action :=
-  [ASub 0 K1; UpAccept 0; UpAck 0; APublish 0; ABook 0; AInsert 0; ASend 0;
-   ACtxCancel 1; ASub 1 K1; AInsert 1; ASendCtx 1 true false; ARLReadErr 0].
-
-Lemma refuted_d :
-  exists log, obs false tr_d = Some log /\ In (OConnErr 0 (CWriteCtx 1)) log /\ ~ In (OCancel 0) log /\ ~ isolated_log log.
+  [ASub 0 K1; UpAccept 0; UpAck 0; ABook 0; APublish 0; AInsert 0; ASend 0;
+   ACtxCancel 1; ASub 1 K1; AInsert 1; ASend 1; ARemove 1; UpMsg 0 0 (KData 7)].
+Example repaired_d :
+  exists log, obs false tr_d = Some log /\ In (ORet 1 (Some (ECtx 1 false))) log /\ In (ODeliver 0 (KData 7)) log
+              /\ ~ In (OSrvClosed 0) log /\ isolated_log_b log = true.
 Proof.
-  eexists; (split; [vm_compute; reflexivity|]);
-    (split; [simpl; tauto|]); (split; [simpl; intuition discriminate|]);
-    intro H; apply isolated_log_b_sound in H; vm_compute in H; discriminate.
+  eexists. split; [vm_compute; reflexivity|]. repeat split; simpl; try tauto; intuition discriminate.
 Qed.
 
 (* conns map hygiene (NOT part of the property): a connection dropped by the upstream between the
-   dial's return and the dialler's bookkeeping leaves a closed entry in WSTransport.conns *)
+   dial's return and the dialler's bookkeeping leaves a closed entry in WSTransport.conns; the
+   subscriber that finds it closed starts over (getOrDial skips closed entries) *)
 Definition tr_stale : list action :=
-  [ASub 0 K1; UpAccept 0; UpAck 0; UpDrop 0; ARLReadErr 0; ARemoveConn 0; APublish 0; ABook 0; AInsert 0].
+  [ASub 0 K1; UpAccept 0; UpAck 0; UpDrop 0; ARLReadErr 0; ARemoveConn 0; ABook 0; APublish 0; AInsert 0].
 Example stale_conns_entry :
   exists s log, run (init false) tr_stale = Some (s, log) /\ conns s K1 = Some 0
-                /\ (exists x, cns s 0 = Some x /\ c_closed x = true) /\ quiescent s.
+                /\ (exists x, cns s 0 = Some x /\ c_closed x = true) /\ pc s 0 = SRetry.
 Proof.
   eexists. eexists. split; [vm_compute; reflexivity|]. split; [reflexivity|].
-  split; [eexists; split; reflexivity|].
-  intros a Ha. destruct a; try discriminate; simpl;
-    try (destruct i as [|[|i]]; reflexivity); try (destruct c as [|[|c]]; reflexivity).
+  split; [eexists; split; reflexivity | reflexivity].
+Qed.
+
+Lemma repaired_witnesses :
+  (exists log, obs false tr_a = Some log /\ In (ORet 0 (Some (ECtx 0 true))) log
+               /\ In (OSrvDial 1 K1) log /\ In (ORet 1 None) log /\ isolated_log_b log = true)
+  /\ (exists log, obs true tr_b = Some log /\ In (ODeliver 1 (KData 5)) log /\ ~ In (OSrvClosed 0) log
+                  /\ isolated_log_b log = true)
+  /\ (exists log, obs false tr_b0 = Some log /\ In (OSrvClosed 0) log /\ In (OSrvSub 1 2 1) log
+                  /\ In (ORet 1 None) log /\ isolated_log_b log = true)
+  /\ (exists log, obs false tr_d = Some log /\ In (ORet 1 (Some (ECtx 1 false))) log
+                  /\ In (ODeliver 0 (KData 7)) log /\ ~ In (OSrvClosed 0) log /\ isolated_log_b log = true).
+Proof.
+  split; [exact repaired_a|]. destruct repaired_b as (Hb & Hb0 & _). split; [exact Hb|]. split; [exact Hb0 | exact repaired_d].
 Qed.
